@@ -50,6 +50,27 @@ def order_leak_fonts(ctx):
     d = ctx.path("mini", "leaky", "x")[:-2]
     out.append(("minifont:order-leak-shapes", minifont.materialize(mf, d), []))
     out.append(("minifont:order-leak-shapes", out[0][1], ["flatten"]))
+    # kerning that spans scripts: a group mixing Latin and Greek, group/glyph pairs with glyph/glyph
+    # exceptions, RTL letters and a common-script glyph; the kern writer splits by script and merges
+    # overlapping script sets (bucket order must not leak into "first rule wins")
+    names = [("A", 0x41), ("T", 0x54), ("V", 0x56), ("Alpha", 0x391), ("Upsilon", 0x3A5), ("Tau", 0x3A4),
+             ("alef-hb", 0x5D0), ("bet-hb", 0x5D1), ("period", 0x2E), ("Be-cy", 0x411)]
+    mf = minifont.template_wght(tuple(n for n, _ in names))
+    for g, (_n, cp) in zip(mf["glyphs"], names):
+        g["unicodes"] = [cp]
+    groups = {"public.kern1.Alike": ["A", "Alpha", "Be-cy"], "public.kern2.Vlike": ["V", "Upsilon"],
+              "public.kern1.Tlike": ["T", "Tau"], "public.kern2.dots": ["period", "bet-hb"]}
+    kern_r = {"A": {"T": -10, "V": -80}, "Alpha": {"Upsilon": -70, "Tau": -15},
+              "public.kern1.Alike": {"T": -30, "Upsilon": -35, "public.kern2.Vlike": -55, "public.kern2.dots": -5},
+              "public.kern1.Tlike": {"public.kern2.dots": -45, "A": -25}, "alef-hb": {"bet-hb": -20, "period": -8},
+              "Be-cy": {"V": 12}}
+    kern_b = {"A": {"T": -14, "V": -90}, "Alpha": {"Upsilon": -75},
+              "public.kern1.Alike": {"T": -36, "Upsilon": -41, "public.kern2.Vlike": -60},
+              "public.kern1.Tlike": {"public.kern2.dots": -50}, "alef-hb": {"bet-hb": -26}}
+    mf["masters"][0].update(groups=groups, kerning=kern_r)
+    mf["masters"][1].update(groups=groups, kerning=kern_b)
+    d = ctx.path("mini", "mixed-script-kern", "x")[:-2]
+    out.append(("minifont:mixed-script-kerning", minifont.materialize(mf, d), []))
     return out
 
 
